@@ -269,7 +269,7 @@ def check(prop, tier):
     seed = int(os.environ.get('VERIF_SEED', '0') or 0)
     cfg = PROPS[prop]
     groups = cfg['groups']
-    units = cfg['units']          # unit ids whose obligations belong to this property
+    units = cfg['units']          # unit ids whose obligations belong to this property ("*" = all)
     safety_only = cfg.get('safety_only', False)
     with concurrent.futures.ThreadPoolExecutor(max_workers=4) as ex:
         results = list(ex.map(lambda g: run_group(g, tier), groups))
@@ -281,6 +281,8 @@ def check(prop, tier):
             if r['status'] != r2['status']:
                 r['status'] = 'undecided'
                 r['undecided'] = 'solver configurations disagree (seed 0: %s, seed %d: %s)' % (r['status'], seed + 17, r2['status'])
+    if units == '*':
+        units = sorted(set(u for r in results for u in r.get('units', {})))
     known = load_json(os.path.join(VERIF, 'known_findings.json'))
     known_obl = {k['obligation']: k for k in known.get('findings', []) if k['property'] == prop}
 
